@@ -13,7 +13,7 @@ from .common import exc_key
 
 ID = "C17"
 LEVEL = "exploration"
-RULE = ("a tree (directory input, recursive) or a lone file + settings (prefix, extension options) and a history of 2..5 "
+RULE = ("a tree (directory input, recursive) or a lone file + settings (prefix, extension options, strip patterns, location-independent exclude patterns) and a history of 2..5 "
         "further runs drawn from {same again; other cwd with the input spelled relative ('in', './in/', '../x/in', '.' from "
         "inside) or absolute; whole tree moved to another absolute location with the same directory name; another "
         "directory-listing permutation; another PYTHONHASHSEED (real subprocess); the input documented together with 1..3 "
@@ -39,6 +39,9 @@ def strategy(tier):
         "prefix": st.sampled_from([None, None, "pfx"]),
         "ext": st.booleans(),
         "strip": st.sampled_from(["", "^_", "^_"]),
+        # location-independent exclusion patterns are settings like any other (none matches a sandbox ancestor)
+        "excl": st.sampled_from([None, None, ["pre_*"], ["?x.cmake", "d?/"], ["a.cmake", "zeta.cmake"], ["*.CMAKE", "sub/"],
+                                 ["a.cmake", "b.cmake", "ax.cmake", "bx.cmake", "d.cmake"]]),
         "history": st.lists(step, min_size=2, max_size=5),
     })
 
@@ -85,9 +88,13 @@ def evaluate(case):
         cfg = sb.path("settings.yaml")
         with open(cfg, "w") as f:
             f.write("rst:\n  file_extensions_in_titles: %s\n" % ("true" if case["ext"] else "false"))
+            if case.get("strip") or case.get("excl"):
+                f.write("input:\n")
             if case.get("strip"):
-                f.write("input:\n  function_parameter_name_strip_regex: %r\n  macro_parameter_name_strip_regex: %r\n"
+                f.write("  function_parameter_name_strip_regex: %r\n  macro_parameter_name_strip_regex: %r\n"
                         % (case["strip"], case["strip"]))
+            if case.get("excl"):
+                f.write("  exclude_filters:\n" + "".join(f"    - {p!r}\n" for p in case["excl"]))
         lone = case["lone"]
         target_rel = top_files[0] if lone else ""
 
@@ -213,6 +220,8 @@ def evaluate(case):
                         res.fail(f"extra-file:{kind}", f"step {i} ({kind}): {path} generated only in this run")
         res.labels += ["step:" + k for k in kinds]
         res.labels.append("input:" + ("lone-file" if lone else "directory"))
+        if case.get("excl"):
+            res.labels.append("settings:exclude-patterns")
         if shared_excluded:
             res.labels.append("shared-top-index-excluded")
         special = {"prefilled-output", "cwd-inside-sub", "moved", "cwd-rel", "cwd-dotslash", "cwd-updown", "cwd-dot", "others-before", "others-both", "api-successive"}
